@@ -211,14 +211,14 @@ theorem rel_commit (o₁ o₂ : Oracles) (a b : St) (r : Rel a b) (ia : Inv a) (
   · simp only
     rw [r.lex]
     split
-    · exact ⟨rfl, hfr, rfl, r.wal, r.cards, r.enrich, r.docs, r.seq, rfl, rfl, by simp [r.gen], by simp [r.stale, r.docs, hce]⟩
+    · exact ⟨rfl, hfr, rfl, r.wal, r.cards, r.enrich, r.docs, r.seq, rfl, rfl, by simp [r.gen], by simp [r.stale, r.docs, r.gen, hce]⟩
     · split
-      · refine ⟨rfl, hfr, rfl, ?_, r.cards, r.enrich, by rw [hfr], by simp [r.seq], rfl, rfl, by simp [r.gen], by simp [r.stale, r.docs, hce]⟩
+      · refine ⟨rfl, hfr, rfl, ?_, r.cards, r.enrich, by rw [hfr], by simp [r.seq], rfl, rfl, by simp [r.gen], by simp [r.stale, r.docs, r.gen, hce]⟩
         simp only [List.map_append, List.map_cons, List.map_nil, Rec.low, map_isEmpty, layout_isEmpty, r.wal, hfr]
       · split
-        · refine ⟨rfl, r.frames, r.pending, ?_, r.cards, r.enrich, r.docs, by simp [r.seq], rfl, rfl, by simp [r.gen], by simp [r.stale, r.docs, hce]⟩
+        · refine ⟨rfl, r.frames, r.pending, ?_, r.cards, r.enrich, r.docs, by simp [r.seq], rfl, rfl, by simp [r.gen], by simp [r.stale, r.docs, r.gen, hce]⟩
           simp only [List.map_append, List.map_cons, List.map_nil, Rec.low, map_isEmpty, segs_isEmpty_of_inv ia, segs_isEmpty_of_inv ib, r.docs, r.wal]
-        · exact ⟨rfl, r.frames, r.pending, r.wal, r.cards, r.enrich, r.docs, r.seq, rfl, rfl, by simp [r.gen], by simp [r.stale, r.docs, hce]⟩
+        · exact ⟨rfl, r.frames, r.pending, r.wal, r.cards, r.enrich, r.docs, r.seq, rfl, rfl, by simp [r.gen], by simp [r.stale, r.docs, r.gen, hce]⟩
 
 theorem search_eq (E : Engine) (hE : EngineDet E) (a b : St) (r : Rel a b) (ia : Inv a) (ib : Inv b) (q : Nat) :
     E a.segs q = E b.segs q := by
